@@ -137,6 +137,20 @@ def run(ctx):
                 history += [f"require {m} as ShA; require {m} as ShB", "ShA->bump(); ShA->bump(); ShB->peek() == ShA->peek()"]
                 if a[:2] != ('val', ('b', True)):
                     ctx.violation("oracle", f"two importers of {m} do not share one module instance: {a[:2]}", {"op": "shared", "modules": files, "history": history})
+            if not cyclic:
+                # a call that loads (or re-requires) a module and THEN fails does not undo the load: the next require neither evaluates the
+                # module again nor gets another instance (state bumped before the failing call is still there)
+                for m in names[:3]:
+                    before, _, _ = s.run(f"require {m} as Keep_; Keep_->bump()")
+                    f1, p1, _ = s.run(f"require {m} as Tmp_; Tmp_->bump(); error 'after the load'")
+                    f2, p2, _ = s.run(f"require {m} as Again_; Again_->peek()")
+                    history += [f"require {m} as Keep_; Keep_->bump()", f"require {m} as Tmp_; Tmp_->bump(); error 'after the load'", f"require {m} as Again_; Again_->peek()"]
+                    ctx.count("failing_call_after_load")
+                    if f"load {m}" in (p1 + p2):
+                        ctx.violation("oracle", f"module {m} was evaluated again after a call that required it and then failed", {"op": "load-count", "modules": files, "history": history})
+                    elif before[0] == 'val' and f2[0] == 'val' and before[1][0] == 'i' and f2[1] != ('i', before[1][1] + 1):
+                        ctx.violation("oracle", f"after a failing call that bumped {m}'s state ({before[1]} -> +1) a new importer sees {f2[1]}: not the one shared instance",
+                                      {"op": "shared", "modules": files, "history": history})
             if cyclic:
                 # a cycle is an error (not a hang), and the same error again
                 o1, _, _ = s.run(f"require {names[0]}")
